@@ -21,9 +21,11 @@
 //!   range / ontype  the text obtained by applying the returned edits has the same tokens and
 //!              specials as s (an edit that pastes text of other lines or drops non-blank lines
 //!              necessarily changes one of the two sequences).
-//! Inputs whose lexing contains `Error` tokens (stratum `lexerr`) are only required not to crash the
-//! formatter and to keep the token-text sequence; no idempotence / specials claim is made for them
-//! (an unterminated comment is one multi-line Error token, "the same comments" has no meaning).
+//! Inputs whose lexing contains `Error` tokens (stratum `lexerr`) are required not to crash the
+//! formatter, to keep the token-text sequence and to be formatted idempotently ("formatting an
+//! already formatted text changes nothing" needs no lexing to be meaningful); no specials claim is
+//! made for them (an unterminated comment is one multi-line Error token, "the same comments" has no
+//! meaning; the content of that token is not compared either, only that it stays in place).
 //!
 //! The idempotence pass and the range / on-type checks of a (text, configuration) are evaluated
 //! only where the whole-document pass kept the program: a first pass that already changed the
@@ -33,7 +35,7 @@
 //! `valid` (parses without errors), `synerr`, `lexerr`, each `+mlpragma` when a pragma spans lines;
 //! the cause feature of a glued token pair is (observed spacing style, left token kind, what the
 //! pair became) — the inputs of the formatter's gluing decision; for range / on-type edits it is
-//! whether whole-document formatting changes the number of lines. A token / comment / pragma /
+//! what whole-document formatting does to the number of lines (`linecount-same|shrank|grew`). A token / comment / pragma /
 //! string whose text only gained blanks at one place has the feature `padded:<kind>`, with
 //! `@assign-op` when the blanks sit directly in front of the text `:=` / `=>` (the column the
 //! text-based assignment alignment pads).
@@ -53,6 +55,20 @@
 //! blanks / tab (lines passed through verbatim then share the indentation of their formatted
 //! neighbours). Also operator text that only exists across two tokens (`<=` `>` written apart), and
 //! `,` (the split text of the wrapping pass, which shares the masks) inside long specials.
+//!
+//! Family (vi) `blank` (added after a second missed change: the whole-document pass collapsed runs
+//! of empty lines while range / on-type formatting cut their lines out of that result by SOURCE
+//! line number): constructs for which whole-document formatting may change the NUMBER of lines —
+//! runs of 1 / 2 / 3 empty lines, blank-only lines, comments / pragmas / statements continued across
+//! empty lines, at the start / end of the file, of a VAR block, between declarations, statements
+//! and POUs — swept with every line interval (rangeFormatting) and every line end x trigger
+//! (onTypeFormatting), so that requests lie above, inside and below the construct; the same run is
+//! also put into texts of every other family whose partial formatting is swept (`crafted+blank`,
+//! `corpus+blank`, `mixed+blank`, `align+blank`).
+//!
+//! Strata of inputs with lexer errors: `lexerr` (stray characters, error-strings = quoted text with
+//! an invalid `$` escape, which the lexer returns as ONE Error token), `lexerr+opencomment`
+//! (unterminated block comment).
 //!
 //! Mechanics: requests of a window of texts are pipelined on one connection (the reader thread
 //! drains the server continuously; server->client requests are answered at once); a window in which
@@ -927,6 +943,8 @@ pub struct View {
     /// comments, pragmas, string literals in order: (kind, normalised text)
     specials: Vec<(TokenKind, String)>,
     has_error: bool,
+    /// an Error token that spans lines: an unterminated block comment (runs to the end of the text)
+    open_comment: bool,
 }
 
 fn norm_multiline(s: &str) -> String {
@@ -934,7 +952,7 @@ fn norm_multiline(s: &str) -> String {
 }
 
 pub fn view(text: &str) -> View {
-    let mut v = View { toks: Vec::new(), specials: Vec::new(), has_error: false };
+    let mut v = View { toks: Vec::new(), specials: Vec::new(), has_error: false, open_comment: false };
     for t in lex(text) {
         let s = &text[usize::from(t.range.start())..usize::from(t.range.end())];
         match t.kind {
@@ -944,7 +962,10 @@ pub fn view(text: &str) -> View {
             k => {
                 if k == TokenKind::Error {
                     v.has_error = true;
-                    if s.contains('\n') {
+                    // (`(*` / `/*` always open a block comment: an Error token that starts with one
+                    // of them is an unterminated comment and runs to the end of the text)
+                    if s.contains('\n') || s.starts_with("(*") || s.starts_with("/*") {
+                        v.open_comment = true;
                         // an unterminated comment: one Error token up to the end of the text; what
                         // "the same token" means for it is not derivable from the statement, its
                         // content is not compared (only that it is still there, in place)
@@ -1120,11 +1141,13 @@ fn ws_class(a: &str, b: &str) -> &'static str {
 }
 
 /// `valid`: parses without errors; `synerr`: lexes cleanly but has parse errors; `lexerr`: Error tokens.
-/// Inputs with a pragma that spans lines are a stratum of their own (`+mlpragma`).
+/// Inputs with a pragma that spans lines are a stratum of their own (`+mlpragma`), and so are
+/// inputs with an unterminated block comment (`lexerr+opencomment`: one Error token up to the end
+/// of the text; the formatter's line bookkeeping meets a non-trivia token that spans lines).
 fn stratum(text: &str, v: &View) -> &'static str {
     let ml = v.specials.iter().any(|(k, s)| *k == TokenKind::Pragma && s.contains('\n'));
     if v.has_error {
-        if ml { "lexerr+mlpragma" } else { "lexerr" }
+        if v.open_comment { "lexerr+opencomment" } else if ml { "lexerr+mlpragma" } else { "lexerr" }
     } else if parse(text).ok() {
         if ml { "valid+mlpragma" } else { "valid" }
     } else if ml {
@@ -1188,6 +1211,9 @@ pub struct Stats {
     /// family (v): bundles / bundles in whose result an operator was moved right by alignment
     align_bundles: u64,
     align_padded: u64,
+    /// family (vi) and the blank-run injections: range / on-type requests, those answered with an edit
+    blank_partial: u64,
+    blank_partial_nonempty: u64,
     hashes: Vec<u64>,
 }
 
@@ -1207,6 +1233,8 @@ impl Stats {
         self.errors += o.errors;
         self.align_bundles += o.align_bundles;
         self.align_padded += o.align_padded;
+        self.blank_partial += o.blank_partial;
+        self.blank_partial_nonempty += o.blank_partial_nonempty;
         self.hashes.extend(o.hashes);
     }
 }
@@ -1295,6 +1323,8 @@ struct TextState {
     f1: Option<String>,
     changed: bool,
     wrapped: bool,
+    /// lines(whole-document result) - lines(text)
+    delta: i64,
     clean: bool,
 }
 
@@ -1430,7 +1460,7 @@ fn eval_window(
             Kind::Format => {
                 lst.bundles += 1;
                 match ti.stratum {
-                    "lexerr" | "lexerr+mlpragma" => lst.lexerr += 1,
+                    _ if ti.view.has_error => lst.lexerr += 1,
                     "valid" | "valid+mlpragma" => lst.valid += 1,
                     _ => {}
                 }
@@ -1444,7 +1474,8 @@ fn eval_window(
                         }
                         let s = &mut state[p.ti];
                         s.changed = f1 != ti.text;
-                        s.wrapped = f1.matches('\n').count() != ti.text.matches('\n').count();
+                        s.delta = f1.matches('\n').count() as i64 - ti.text.matches('\n').count() as i64;
+                        s.wrapped = s.delta != 0;
                         s.clean = true;
                         if s.changed {
                             lst.changed += 1;
@@ -1463,6 +1494,10 @@ fn eval_window(
             }
             Kind::Range { a, b, .. } => {
                 lst.range_reqs += 1;
+                if family.contains("blank") {
+                    lst.blank_partial += 1;
+                    lst.blank_partial_nonempty += !edits.is_empty() as u64;
+                }
                 if !edits.is_empty() {
                     lst.range_nonempty += 1;
                     if edits.iter().any(|x| x.sl < *a || x.el > *b + 1) {
@@ -1472,17 +1507,21 @@ fn eval_window(
                 // a (text, cfg) whose whole-document pass already breaks the program is reported by
                 // the format clause; the partial edits are cut out of that same result
                 if state[p.ti].clean {
-                    let lc = if state[p.ti].wrapped { "linecount-changed" } else { "linecount-same" };
+                    let lc = linecount_label(state[p.ti].delta);
                     check_partial("range", family, ti, &edits, lc, &case, &mut lout);
                 }
             }
             Kind::OnType { .. } => {
                 lst.ontype_reqs += 1;
+                if family.contains("blank") {
+                    lst.blank_partial += 1;
+                    lst.blank_partial_nonempty += !edits.is_empty() as u64;
+                }
                 if !edits.is_empty() {
                     lst.ontype_nonempty += 1;
                 }
                 if state[p.ti].clean {
-                    let lc = if state[p.ti].wrapped { "linecount-changed" } else { "linecount-same" };
+                    let lc = linecount_label(state[p.ti].delta);
                     check_partial("ontype", family, ti, &edits, lc, &case, &mut lout);
                 }
             }
@@ -1492,12 +1531,13 @@ fn eval_window(
 
     // ---- phase B: idempotence. Only where the first pass kept the program (a first pass that
     // already changed the tokens is reported by the tokens clause; its second pass says nothing
-    // new) and the input has no lexer Error tokens (see module comment).
+    // new). Inputs with lexer Error tokens included: "formatting an already formatted text changes
+    // nothing" is claimed for every source text.
     pend.clear();
     ids.clear();
-    for (k, ti) in texts.iter().enumerate() {
+    for k in 0..texts.len() {
         let s = &state[k];
-        if !(s.changed && s.clean && !ti.view.has_error) {
+        if !(s.changed && s.clean) {
             continue;
         }
         let f1 = s.f1.as_deref().unwrap();
@@ -1616,14 +1656,25 @@ fn eval_job(pool: &Pool, lsp: &mut Option<Lsp>, job: &Job, st: &mut Stats, out: 
 fn idem_violation(seam: &str, family: &str, ti: &TextInfo, f1: &str, f2: &str, wrapped: bool, case: Value) -> Violation {
     let cls = ws_class(f1, f2);
     let first = f1.split('\n').zip(f2.split('\n')).find(|(x, y)| x != y);
+    let (n1, n2) = (f1.split('\n').count(), f2.split('\n').count());
     Violation {
         signature: format!("C15/idempotent/{seam}/{}/{cls}{}", ti.stratum, if wrapped { "+linecount-changed" } else { "" }),
         what: format!(
-            "format(format(s)) != format(s) ({seam}, family {family}); difference class {cls}; first differing line: {:?} vs {:?}",
+            "format(format(s)) != format(s) ({seam}, family {family}); difference class {cls}; {n1} lines vs {n2} lines; first differing line: {:?} vs {:?}",
             first.map(|p| clip(p.0, 70)),
             first.map(|p| clip(p.1, 70))
         ),
         case,
+    }
+}
+
+/// Cause feature of a broken range / on-type edit: what whole-document formatting (which partial
+/// formatting cuts its lines out of, by source line number) does to the number of lines.
+fn linecount_label(delta: i64) -> &'static str {
+    match delta {
+        0 => "linecount-same",
+        d if d < 0 => "linecount-shrank",
+        _ => "linecount-grew",
     }
 }
 
@@ -1719,8 +1770,8 @@ pub fn web_bundle(web: &Web, family: &str, ti: &TextInfo, st: &mut Stats, out: &
         check_produced("web", "format", family, ti, &f1, "", &case, out);
         clean = out.len() == before;
     }
-    // idempotence: same rule as on the LSP seam (clean first pass, no lexer Error tokens)
-    if clean && !ti.view.has_error {
+    // idempotence: same rule as on the LSP seam (clean first pass)
+    if clean {
         st.idem_checks += 1;
         match web.format(&f1) {
             Ok(f2) => {
@@ -1789,8 +1840,7 @@ pub fn check_case(case: &Value) -> Vec<Violation> {
                         return out; // reported by the format clause, see eval_window
                     }
                 }
-                let wrapped = full.map(|f| f.matches('\n').count() != ti.text.matches('\n').count()).unwrap_or(false);
-                let lc = if wrapped { "linecount-changed" } else { "linecount-same" };
+                let lc = linecount_label(full.map(|f| f.matches('\n').count() as i64 - ti.text.matches('\n').count() as i64).unwrap_or(0));
                 if let Ok(uri) = lsp.open(&cfg, &ti.text) {
                     let g = |i: usize, key: &str| case[key][i].as_u64().unwrap_or(0) as u32;
                     let r = if op == "range" {
@@ -2027,6 +2077,8 @@ fn align_victims(t: &str, stmt: bool) -> Vec<Lines> {
         v.push(one(format!("// a {x} b")));
         // tab in front of the real operator on a line that is passed through verbatim
         v.push(one(format!("y\t:= 1{t} // a {x} b")));
+        // error-string: quoted text with an invalid `$` escape is ONE Error token of the lexer
+        v.push(one(format!("Log('a$x{x}b'){t}")));
     }
     // operator text that only exists across two tokens (never valid code: stratum synerr)
     v.push(one(format!("y <= > z{t}")));
@@ -2040,6 +2092,9 @@ fn align_victims(t: &str, stmt: bool) -> Vec<Lines> {
     v.push(one(format!("Log(1){t} // a, b, c, d, e, f, g, h, i, j, k, l")));
     v.push(one(format!("(* a, b, c, d, e, f, g, h, i, j, k, l *) Log(1){t}")));
     v.push(one(format!("{{attr 'a, b, c, d, e, f, g, h, i, j'}} Log(1){t}")));
+    // the same inside error-strings (`$,` / `$5` are no escapes: one Error token each, stratum lexerr)
+    v.push(one(format!("Log('a$, b, c, d, e, f, g, h, i, j, k, l'){t}")));
+    v.push(one(format!("Log(\"cost $5, tax $1, total $6, and more\"){t}")));
     if stmt {
         // `:=` of a FOR header
         v.push(vec![(0, "FOR i := 1 TO 3 DO".to_string()), (1, "x := x + i;".to_string()), (0, "END_FOR;".to_string())]);
@@ -2078,6 +2133,7 @@ fn align_decl_victims() -> Vec<Lines> {
         v.push(one(format!("y : INT; // a {x} b")));
     }
     v.push(one("t1 : TOD := TOD#12:00:00;".to_string()));
+    v.push(one("s5 : STRING := 'cost $5, tax $1, total $6, and more text';".to_string()));
     v.push(one("d1 : DT := DT#2020-01-01-12:00:00;".to_string()));
     v
 }
@@ -2190,6 +2246,101 @@ pub fn align_texts(quick: bool) -> (Vec<String>, Vec<String>, Vec<String>) {
         }
     }
     (core_star, core, all)
+}
+
+// ------------------------------------------------------------------------------------------------
+// family (vi): constructs for which whole-document formatting may change the NUMBER of lines,
+// with range / on-type requests above, inside and below them
+// ------------------------------------------------------------------------------------------------
+// Added after a missed change: the whole-document pass collapsed runs of empty lines while range /
+// on-type formatting cut "their" lines out of that result by SOURCE line number. Whatever changes
+// the number of lines above a requested line (a blank-line policy: collapse runs, trim the start /
+// end of the file or of a block, separate POUs; wrapping; joining / splitting statements) shifts
+// every later line of the result. The sweeps (every line interval, every line end x trigger) put
+// requests above, inside and below each construct.
+
+/// Two POUs, a VAR block, a statement list with a nested block.
+pub const BLANK_BASE: &[&str] = &[
+    "FUNCTION f : INT",
+    "VAR_INPUT",
+    "a : INT;",
+    "b : INT;",
+    "END_VAR",
+    "f := a;",
+    "END_FUNCTION",
+    "PROGRAM p",
+    "x := 1;",
+    "IF x = 1 THEN",
+    "x := f(x, 2);",
+    "END_IF;",
+    "END_PROGRAM",
+];
+/// Where a run is put: (name, index of the base line it is put in front of).
+pub const BLANK_SLOT: &[(&str, usize)] = &[("start", 0), ("var-start", 2), ("decl", 3), ("var-end", 4), ("pou", 7), ("stmt", 9), ("block", 10), ("eof", 13)];
+/// The runs: 1 / 2 / 3 empty lines, blank-only lines (blanks, tab), mixed; a block comment, a pragma
+/// and a statement that continue across two empty lines.
+pub const BLANK_RUN: &[(&str, &[&str])] = &[
+    ("e2", &["", ""]),
+    ("e3", &["", "", ""]),
+    ("b2", &["  ", "\t"]),
+    ("e1", &[""]),
+    ("m3", &["", " \t", ""]),
+    ("c2", &["(* c1", "", "", "c2 *)"]),
+    ("p2", &["{p1", "", "", "p2}"]),
+    ("k2", &["y := f(x,", "", "", "2);"]),
+];
+
+/// `text` with the lines `run` put in front of its line `at` (line ending taken from the text).
+pub fn inject_lines(text: &str, at: usize, run: &[&str]) -> Option<String> {
+    let eol = if text.contains("\r\n") { "\r\n" } else { "\n" };
+    let lines: Vec<&str> = text.split_inclusive('\n').collect();
+    if at > lines.len() {
+        return None;
+    }
+    let mut out = String::with_capacity(text.len() + 16);
+    for (i, l) in lines.iter().enumerate() {
+        if i == at {
+            for r in run {
+                out.push_str(r);
+                out.push_str(eol);
+            }
+        }
+        out.push_str(l);
+    }
+    if at == lines.len() {
+        if !out.is_empty() && !out.ends_with('\n') {
+            out.push_str(eol);
+        }
+        for r in run {
+            out.push_str(r);
+            out.push_str(eol);
+        }
+    }
+    Some(out)
+}
+
+/// quick: every slot x {2 empty, 3 empty, blank-only} + every run in the statement list + CRLF at
+/// two slots; thorough: slots x runs x {LF, CRLF}.
+pub fn blank_texts(quick: bool) -> Vec<String> {
+    let mut out = Vec::new();
+    for (ei, eol) in ["\n", "\r\n"].iter().enumerate() {
+        let base: String = BLANK_BASE.iter().map(|l| format!("{l}{eol}")).collect();
+        for (slot, at) in BLANK_SLOT {
+            for (ri, (_, run)) in BLANK_RUN.iter().enumerate() {
+                let wanted = if !quick {
+                    true
+                } else if ei == 0 {
+                    ri < 3 || *slot == "stmt"
+                } else {
+                    ri == 0 && matches!(*slot, "decl" | "pou")
+                };
+                if wanted {
+                    out.extend(inject_lines(&base, *at, run));
+                }
+            }
+        }
+    }
+    out
 }
 
 // ------------------------------------------------------------------------------------------------
@@ -2334,6 +2485,17 @@ pub fn run(ctx: &Ctx) -> EngineResult {
     for edge in ["", "\n", "\r\n", "x", "x;", " \t\n", "\n\n", "(* c *)", "// c", "{p}", "'s'"] {
         mixed.push(TextInfo::new(edge.to_string()));
     }
+    // unterminated block comments / pragma (one Error token up to the end of the text)
+    for edge in [
+        "PROGRAM p\nx := 1;\n(* never closed\ny := 2;\nEND_PROGRAM\n",
+        "PROGRAM p\r\nx := 1;\r\ny := 2; /* never closed\r\ny := 3;\r\nEND_PROGRAM\r\n",
+        "PROGRAM p\nIF x THEN\n(* a (* nested closed *) outer open\nx := 1;\nEND_IF;\nEND_PROGRAM",
+        "x := 1; (* open",
+        "PROGRAM p\n{ never closed\nx := 1;\nEND_PROGRAM\n",
+        "(* open at the start\n\nPROGRAM p\nEND_PROGRAM\n",
+    ] {
+        mixed.push(TextInfo::new(edge.to_string()));
+    }
     for len in 1..=max_seg {
         let n = SEGMENTS.len();
         for idx in 0..n.pow(len as u32) {
@@ -2371,6 +2533,29 @@ pub fn run(ctx: &Ctx) -> EngineResult {
     rep.set("align_texts_core", align_core.len() as u64);
     rep.set("align_texts_valid_program", align_all.iter().filter(|t| t.stratum == "valid").count() as u64);
     rep.set("align_texts_lexer_error", align_all.iter().filter(|t| t.view.has_error).count() as u64);
+    // (vi) line-count family, and the same run of two empty lines put into texts of every family
+    // whose range / on-type behaviour is swept
+    let blank: Vec<TextInfo> = blank_texts(quick).into_iter().map(TextInfo::new).collect();
+    let e2: &[&str] = BLANK_RUN[0].1;
+    let mut crafted_blank: Vec<TextInfo> = Vec::new();
+    for t in CRAFTED {
+        let n = t.split('\n').count();
+        crafted_blank.extend(inject_lines(t, n / 2, e2).map(TextInfo::new));
+        if !quick {
+            crafted_blank.extend(inject_lines(t, 0, e2).map(TextInfo::new));
+        }
+    }
+    let corpus_blank: Vec<TextInfo> = corpus_small
+        .iter()
+        .filter(|t| !quick || t.text.split('\n').count() <= 26)
+        .filter_map(|t| inject_lines(&t.text, t.text.split('\n').count() / 3, e2))
+        .map(TextInfo::new)
+        .collect();
+    // (the degenerate documents at the head of the mixed family are too short to have a line 5)
+    let mixed_blank: Vec<TextInfo> = mixed.iter().filter(|t| t.text.split('\n').count() > 6).take(60).filter_map(|t| inject_lines(&t.text, 5, e2)).map(TextInfo::new).collect();
+    let align_blank: Vec<TextInfo> = align_core_star.iter().filter_map(|t| inject_lines(&t.text, 5, e2)).map(TextInfo::new).collect();
+    rep.set("blank_texts", blank.len() as u64);
+    rep.set("blank_injected_texts", (crafted_blank.len() + corpus_blank.len() + mixed_blank.len() + align_blank.len()) as u64);
     rep.set("pair_tokens", TOKENS.len() as u64);
     rep.set("pair_texts", (pair_texts.len() * pair_texts[0].len()) as u64);
     rep.set("mixed_texts", mixed.len() as u64);
@@ -2382,6 +2567,12 @@ pub fn run(ctx: &Ctx) -> EngineResult {
     // three far-apart configurations for the big families of the quick tier (default; 2 blanks,
     // upper case, compact, max 40; tabs, lower case, siemens profile, max 20)
     let few: Vec<Cfg> = vec![DEFAULT_CFG, Cfg([1, 2, 2, 1, 1, 1, 2, 0]), Cfg([2, 3, 0, 0, 0, 0, 1, 2])];
+    // (vi) line-count family: every range and on-type position; quick: under the default
+    // configuration, on-type positions also under the two other far-apart ones
+    push(&mut jobs, "blank", &blank, if quick { &few[..1] } else { &cover }, Extra::RangesAndOnType { alt_range_form: !quick }, 2);
+    if quick {
+        push(&mut jobs, "blank", &blank, &few[1..], Extra::OnType, 8);
+    }
     // (v) alignment-sensitive line groups: the centre texts under all covering configs, the texts
     // off the centre under those that leave the alignment of assignments on (with alignment off
     // they only repeat what the centre texts show); centre texts also with every on-type position
@@ -2394,6 +2585,12 @@ pub fn run(ctx: &Ctx) -> EngineResult {
     } else {
         push(&mut jobs, "align", &align_core, &wrap_cfgs, Extra::RangesAndOnType { alt_range_form: false }, 4);
     }
+    // the run of two empty lines inside texts of the other swept families (default configuration;
+    // thorough: for the crafted programs also the configurations that wrap)
+    push(&mut jobs, "crafted+blank", &crafted_blank, if quick { &wrap_cfgs[..1] } else { &wrap_cfgs }, Extra::RangesAndOnType { alt_range_form: false }, 1);
+    push(&mut jobs, "align+blank", &align_blank, &wrap_cfgs[..1], if quick { Extra::OnType } else { Extra::RangesAndOnType { alt_range_form: false } }, 16);
+    push(&mut jobs, "mixed+blank", &mixed_blank, if quick { &wrap_cfgs[..1] } else { &wrap_cfgs[..3] }, Extra::OnType, 16);
+    push(&mut jobs, "corpus+blank", &corpus_blank, if quick { &wrap_cfgs[..1] } else { &wrap_cfgs[..3] }, if quick { Extra::OnType } else { Extra::RangesAndOnType { alt_range_form: false } }, 2);
     // (iv) crafted programs: all covering configs, all ranges, all on-type positions
     push(&mut jobs, "crafted", &wrap_texts, &cover, Extra::RangesAndOnType { alt_range_form: false }, 1);
     push(&mut jobs, "crafted", &wrap_texts, if quick { &wrap_cfgs[..5] } else { &wrap_cfgs }, Extra::RangesAndOnType { alt_range_form: true }, 1);
@@ -2493,6 +2690,9 @@ pub fn run(ctx: &Ctx) -> EngineResult {
     for t in &align_all {
         all_texts.push(("align", *t));
     }
+    for t in blank.iter().chain(&crafted_blank) {
+        all_texts.push(("blank", t));
+    }
     for v in &pair_texts {
         for t in v {
             all_texts.push(("pair", t));
@@ -2552,6 +2752,9 @@ pub fn run(ctx: &Ctx) -> EngineResult {
     if wtotal.changed == 0 {
         return machinery("web seam vacuous: format_source never changed a text");
     }
+    if fam_done.get("blank").map(|v| v.0).unwrap_or(0) > 0 && total.blank_partial_nonempty == 0 {
+        return machinery("blank-run family vacuous: no range / on-type request was answered with an edit");
+    }
     // family (v) is only worth something if the alignment pass acts at all on its texts (on a
     // correct formatter most victim lines are masked out of alignment, so the share is small: the
     // unmasked victims - operator text across tokens, typed literal, FOR header, continuation
@@ -2568,7 +2771,7 @@ pub fn run(ctx: &Ctx) -> EngineResult {
     distinct.extend(wtotal.hashes.iter().copied());
     rep.set("evaluations", lsp_requests + wtotal.bundles + wtotal.idem_checks);
     rep.set("distinct_nontrivial", distinct.len() as u64);
-    rep.set("rule", "every (text, configuration) of: (i) every ordered pair of the token menu (identifiers, keywords in both cases, every operator / punctuation token, plain / based / real / typed / time / date literals, strings containing comment openers and separators, direct addresses) in 6 line contexts (alone, written without a blank, inside an assignment, at the end of an assignment, inside a VAR block, inside a long call); (ii) every .st file of the repository and every single-line deletion / duplication of it; (iii) every sequence of <= L segments (code, block / line / C comments, nested comments, pragmas incl. multi-line, strings containing comment openers and separators) x separator {blank, none, tab} x {LF, CRLF, no final newline} (L = 2 quick, 3 thorough) plus degenerate documents; (iv) hand-written valid programs (long comma lines, typed literals after keyword operators, literals with ':' in VAR blocks, multi-line pragmas, dense / blank-separated operators, nested blocks in lower case); (v) alignment groups: a victim line carrying the text ':=' / '=>' inside a STRING / WSTRING literal (plain, with comma, multi-byte, $', tab), block / C / line comment or pragma (before a real operator, behind it, on a line without one, on a continuation line, alone) or across two tokens (also: ',' inside a long string / comment / pragma, the split text of the wrapping pass), next to a neighbour line whose real operator is further right / left (long name, '=>' call, very long left-hand side, FOR header), in 8 alignment contexts (statement list, IF body, CASE branch, CASE label lines, multi-line call arguments, VAR declarations with initialisers, multi-line initialiser call in VAR, STRUCT fields) x order {NV, VN, NVN} x separator {adjacent, blank, //, pragma, (* *) line} x source layout {flush LF, flush CRLF, 4 blanks, 2 blanks CRLF, tab} (quick: every context with the centre values, and in the statement-list / VAR contexts one dimension off the centre at a time, the off-centre texts under the covering rows that do not switch the alignment of assignments off; thorough: victim x neighbour x order x (separator | layout)). Configurations: a pairwise covering array over the 8 option dimensions incl. 'unset' (indent via FormattingOptions or settings, keyword case, spacing style, end-keyword style, two alignment flags, max line length, vendor profile via trust-lsp.toml); quick uses 3 far-apart configurations for the larger families; thorough adds the full product of the explicit option values for the 'alone' context of (i) and the statement-list / VAR centre texts of (v). Per (text, cfg): textDocument/formatting and re-formatting of the result; for (ii, files <= 40 lines), (iv) and the centre texts of (v) every line interval by rangeFormatting (v: thorough only) and every line end x advertised trigger character by onTypeFormatting. Web IDE: every text once through WebIdeState::format_source (+ re-formatting). distinct_nontrivial = distinct (configuration, formatted text) results in which the formatter changed its input.");
+    rep.set("rule", "every (text, configuration) of: (i) every ordered pair of the token menu (identifiers, keywords in both cases, every operator / punctuation token, plain / based / real / typed / time / date literals, strings containing comment openers and separators, direct addresses) in 6 line contexts (alone, written without a blank, inside an assignment, at the end of an assignment, inside a VAR block, inside a long call); (ii) every .st file of the repository and every single-line deletion / duplication of it; (iii) every sequence of <= L segments (code, block / line / C comments, nested comments, pragmas incl. multi-line, strings containing comment openers and separators) x separator {blank, none, tab} x {LF, CRLF, no final newline} (L = 2 quick, 3 thorough) plus degenerate documents; (iv) hand-written valid programs (long comma lines, typed literals after keyword operators, literals with ':' in VAR blocks, multi-line pragmas, dense / blank-separated operators, nested blocks in lower case); (v) alignment groups: a victim line carrying the text ':=' / '=>' inside a STRING / WSTRING literal (plain, with comma, multi-byte, $', tab), block / C / line comment or pragma (before a real operator, behind it, on a line without one, on a continuation line, alone) or across two tokens (also: ',' inside a long string / comment / pragma, the split text of the wrapping pass), next to a neighbour line whose real operator is further right / left (long name, '=>' call, very long left-hand side, FOR header), in 8 alignment contexts (statement list, IF body, CASE branch, CASE label lines, multi-line call arguments, VAR declarations with initialisers, multi-line initialiser call in VAR, STRUCT fields) x order {NV, VN, NVN} x separator {adjacent, blank, //, pragma, (* *) line} x source layout {flush LF, flush CRLF, 4 blanks, 2 blanks CRLF, tab} (quick: every context with the centre values, and in the statement-list / VAR contexts one dimension off the centre at a time, the off-centre texts under the covering rows that do not switch the alignment of assignments off; thorough: victim x neighbour x order x (separator | layout)). (vi) line-count constructs: a two-POU program with a run put at the start of the file / start of a VAR block / between declarations / end of the VAR block / between POUs / inside a statement list / at the start of a nested block / at the end of the file, the run being 1, 2 or 3 empty lines, blank-only lines (blanks, tab), a mix, or a block comment / pragma / statement continued across two empty lines, LF and CRLF; and two empty lines put into the hand-written programs (iv), the small repository files, mixed-line texts and the statement-list / VAR centre texts of (v); all of these with every line interval by rangeFormatting and / or every line end x trigger by onTypeFormatting, i.e. requests above, inside and below the construct. Configurations: a pairwise covering array over the 8 option dimensions incl. 'unset' (indent via FormattingOptions or settings, keyword case, spacing style, end-keyword style, two alignment flags, max line length, vendor profile via trust-lsp.toml); quick uses 3 far-apart configurations for the larger families; thorough adds the full product of the explicit option values for the 'alone' context of (i) and the statement-list / VAR centre texts of (v). Per (text, cfg): textDocument/formatting and re-formatting of the result; for (ii, files <= 40 lines), (iv) and the centre texts of (v) every line interval by rangeFormatting (v: thorough only) and every line end x advertised trigger character by onTypeFormatting. Web IDE: every text once through WebIdeState::format_source (+ re-formatting). distinct_nontrivial = distinct (configuration, formatted text) results in which the formatter changed its input.");
     rep.set("lsp_requests", lsp_requests);
     rep.set("lsp_servers_spawned", pool.spawned.load(Ordering::Relaxed));
     rep.set("lsp_servers_lost_to_crashes", pool.crashed.load(Ordering::Relaxed));
@@ -2583,6 +2786,8 @@ pub fn run(ctx: &Ctx) -> EngineResult {
     rep.set("range_requests_expanded_to_block", total.range_expanded);
     rep.set("ontype_requests", total.ontype_reqs);
     rep.set("ontype_requests_with_edit", total.ontype_nonempty);
+    rep.set("blank_partial_requests", total.blank_partial);
+    rep.set("blank_partial_requests_with_edit", total.blank_partial_nonempty);
     rep.set("align_bundles", total.align_bundles);
     rep.set("align_bundles_operator_moved_by_alignment", total.align_padded);
     rep.set("web_texts", wtotal.bundles);
@@ -2592,7 +2797,7 @@ pub fn run(ctx: &Ctx) -> EngineResult {
     rep.sample(json!({"family": "mixed", "text": mixed_text(&[0, 16], " ", "\r\n", true)}));
     rep.sample(json!({"family": "crafted", "text": CRAFTED[0], "cfg": wrap_cfgs[1].to_json()}));
     rep.assume("positions are exchanged in UTF-16 units; texts with astral-plane characters or lone CR line ends are left out (property C14)");
-    rep.assume("inputs whose lexing contains Error tokens are only required to keep the token-text sequence and not to crash the formatter");
+    rep.assume("inputs whose lexing contains Error tokens are required to keep the token-text sequence, not to crash the formatter and to be formatted idempotently; the content of an unterminated block comment and the comment / pragma / string sequence are not compared for them");
     rep.assume("comments and pragmas are compared modulo line-ending style and leading/trailing blanks of each of their lines");
     Ok(rep)
 }
